@@ -22,7 +22,7 @@ CHECKS = {
 
 CHECKS["C01"] = dict(
     category="other",
-    technique="operator dispatch matrix + path-based interval extraction of the range decorators/checkers + sign/magnitude abstract evaluation + IEEE class x sign evaluation of the zero-divisor branch and of unary minus + exception-effect analysis + def-use dependence",
+    technique="operator dispatch matrix + path-based interval extraction of the range decorators/checkers + sign/magnitude abstract evaluation + IEEE class x sign evaluation of the zero-divisor branch and of unary minus + checked-intermediate rule (operators and builtins dispatching to range-checked dunders) + exception-effect analysis + def-use dependence",
     text="Decides the structural clauses: every int/uint arithmetic cell (direct and reflected) is under the class's range check whose accepted "
          "interval is exactly int64/uint64; division/remainder bodies truncate toward zero / take the dividend's sign for all sign combinations; "
          "every exception class those cells raise is converted by the interpreter's rule method and by result(); each numeric result depends on both operands. "
@@ -41,7 +41,7 @@ CHECKS["C04"] = dict(
 
 CHECKS["C02"] = dict(
     category="other",
-    technique="finite-domain decision tables by kind-level abstract interpretation + path rule + exception-effect analysis of reducers and rule methods + exception arrivals vs the conversion boundary of compiled operands",
+    technique="finite-domain decision tables by kind-level abstract interpretation + path rule + exception-effect analysis of reducers and rule methods + exception arrivals vs the conversion boundary of compiled operands + early-exit rule for fold loops + path rule on the generic arm of BoolType.__new__",
     text="Extracts the complete decision tables of logical_and/or/not/condition over {true,false,error,non-bool} from their bodies and compares every cell "
          "(and commutativity) with the table in the statement; proves by a path rule that ?: visits exactly the selected branch; proves with the effect "
          "engine that every all/exists fold uses a reducer that cannot raise, that the interpreter converts the logical functions' TypeError, and that no "
@@ -115,7 +115,7 @@ CHECKS["C07"] = dict(
 
 CHECKS["C12"] = dict(
     category="other",
-    technique="finite decision table of Referent.value by abstract interpretation; pool/selection analysis of the tie-break; who-may-read rule on the raw value field; path rule with attribute-store tracking on Referent.clone (every field the getter reads is carried); dataflow/shape rules for macro activations",
+    technique="finite decision table of Referent.value by abstract interpretation; pool/selection analysis of the tie-break; who-may-read rule on the raw value field; path rule with attribute-store tracking on Referent.clone (every field the getter reads is carried); dataflow/shape rules for macro activations; fresh-sub-evaluator path rule; no-replacement rule on load_values",
     text="Narrow claim: decides the preference container > value > annotation inside a Referent (complete table), that among equally long matches the innermost scope wins, "
          "that bindings are loaded in front of declarations, and that both engines evaluate a macro body under the current activation plus exactly the iteration variable(s). "
          "The search over package prefixes and competing dotted names is a loop over run-time name sets and is NOT decided.",
@@ -152,7 +152,7 @@ CHECKS["C17"] = dict(
 
 CHECKS["C20"] = dict(
     category="other",
-    technique="finite exit-status decision tables by kind-level abstract interpretation of main()'s null-input arm and process_json_doc(); fold, dominance and framing rules on the NDJSON loop; absence-vs-emptiness rule for --arg values; path rule on the default package (stored only where --json-document is absent)",
+    technique="finite exit-status decision tables by kind-level abstract interpretation of main()'s null-input arm and process_json_doc(); fold, dominance and framing rules on the NDJSON loop; absence-vs-emptiness rule for --arg values; path rule on the default package (stored only where --json-document is absent); whole-document decoder rule; --arg type table agreement",
     text="Extracts the complete exit-status tables over {true,false,other value,evaluation error} x {-b, no -b} plus malformed JSON and a syntax error and compares them with the "
          "reference; checks that the NDJSON status is a max-fold from 0, that each document alone is bound before evaluate(), that documents are framed by line feeds only, "
          "and that output goes through CELJSONEncoder unless --format. The printed text for arbitrary values is not decided.",
@@ -171,7 +171,7 @@ CHECKS["C11"] = dict(
 
 CHECKS["C18"] = dict(
     category="other",
-    technique="abstract interpretation of the emitted text over CEL precedence classes (least fixpoint over abstract nesting levels), with primitive classes obtained by parsing every emitted template with cel.lark; argument-write effect analysis (no translator function writes into the filter it is given)",
+    technique="abstract interpretation of the emitted text over CEL precedence classes (least fixpoint over abstract nesting levels), with primitive classes obtained by parsing every emitted template with cel.lark; argument-write effect analysis (no translator function writes into the filter it is given); entry-point path rule; precedence class of every operator template",
     text="Decides composition safety for all filter trees by induction: the connective table, monotone nesting level of every recursive call, and - for every join at every abstract "
          "level {0,1,>=2} and every class of child text (nested connectives by fixpoint, primitive clauses by parsing each rewriter's templates with holes replaced by atoms) - "
          "whether the child keeps its grouping inside the joined text; plus negation scope of prefixed clauses and that every clause/return template is CEL. "
@@ -191,7 +191,7 @@ CHECKS["C19"] = dict(
 
 CHECKS["C03"] = dict(
     category="other",
-    technique="sibling cross-check of the two visitor classes against the grammar; operator chain agreement; template placeholder/binding and child-path wiring analysis; exception-effect arrivals vs the conversion boundary of result(); regex-AST anchoring rule for text recognition in Phase 2; per-call-state rules of the compiled runner",
+    technique="sibling cross-check of the two visitor classes against the grammar; operator chain agreement; template placeholder/binding and child-path wiring analysis; exception-effect arrivals vs the conversion boundary of result(); regex-AST anchoring rule for text recognition in Phase 2; per-call-state rules of the compiled runner; construction-time escapes (may-raise origins the interpreter does not share); lookup-error rule on the containers compiled member selection calls",
     text="Decides necessary conditions of runner agreement: both engines cover every grammar rule and the same macros (each with its runtime helper); every operator token reaches the same "
          "Python operator in both; every template placeholder is bound, each operand placeholder to the child in that operand position, operands passed in order; every exception class "
          "that can arrive in result() is caught there and has an exact-class message entry; raw token text never lands in code position. Equality of computed values for all "
